@@ -688,3 +688,37 @@ def C18():
 
 
 ALL.update(C09=C09, C10=C10, C11=C11, C14=C14, C18=C18)
+
+
+def C01():
+    from . import r_reg
+    chk = Check("C01", "other",
+                "Decides ONLY the structural clauses of C01, for every knot multiplicity pattern (all non-decreasing "
+                "sequences up to the length bound over up to five distinct values, orders 0..3): generation returns "
+                "exactly m-p-1 valid splines; the i-th function is supported exactly on its knot span [t_i, t_{i+p+1}] "
+                "(zero elsewhere, not identically zero on a positive-width part of the span, interval-free if the span "
+                "has no width); both construction routes give identical functions; no division by an exactly-zero "
+                "knot difference. NOT decided: that the polynomial pieces equal the Cox-de Boor B-splines, "
+                "continuity across knots, partition of unity - these are identities between computed numbers.")
+    chk.trust(*REG_TRUST)
+    chk.assume(REG_ASSUME[0], "knot values enter the generator's control flow only through comparisons (equal / "
+               "smaller), so the multiplicity pattern (order type of the knot sequence) determines count and supports")
+    _stateless(chk)
+    maxlen = 7 if C.tier() == "thorough" else 6
+    total = 0
+    for n in _reg_unit_names():
+        u = F.load(n)
+        chk.units.append(n)
+        total += r_reg.run_jobs(chk, u, "R-REG.gen", _jobs("r_reg_val", "generator_support_suite",
+                                                           range(2, maxlen + 1), maxlen=maxlen)[:-1])
+        total += r_reg.run_jobs(chk, u, "R-REG.divzero", _jobs("r_reg_val", "generator_suite", range(0, 5), maxlen=4,
+                                                               orders=(0, 1, 2, 3))[:-1],
+                                view=lambda st: {k: v for k, v in st.items() if "division" in k[2]})
+    chk.note("regions_evaluated", total)
+    chk.note("knot_sequence_length_bound", maxlen)
+    chk.exhaustive = True
+    chk.floor("R-REG.gen", chk.rules["R-REG.gen"]["instances"], 3, "(function, clause) obligations")
+    return chk
+
+
+ALL["C01"] = C01
